@@ -1,17 +1,19 @@
 #!/bin/sh
-# Creates a snapshot pair (/tmp/verif_snap, /tmp/repo_snap) of the committed /verif and /repo so that a long
-# detection loop over the seeded changes does not occupy /repo:  VERIF_DIR=/tmp/verif_snap REPO=/tmp/repo_snap
-# python3 /tmp/verif_snap/tools/seed_eval.py detect <ID> <X>.   Remove with:  tools/snapshot_pair.sh remove
+# usage: snapshot_pair.sh [create|remove] [suffix]   (suffix defaults to "snap")
+# Creates a snapshot pair (/tmp/verif_<suffix>, /tmp/repo_<suffix>) of the committed /verif and /repo so that a long
+# detection loop over the seeded changes does not occupy /repo:  VERIF_DIR=/tmp/verif_$SFX REPO=/tmp/repo_$SFX
+# python3 /tmp/verif_$SFX/tools/seed_eval.py detect <ID> <X>.   Remove with:  tools/snapshot_pair.sh remove
 set -e
+SFX="${2:-snap}"
 if [ "$1" = "remove" ]; then
-  git -C /verif worktree remove --force /tmp/verif_snap 2>/dev/null || true
-  git -C /repo worktree remove --force /tmp/repo_snap 2>/dev/null || true
-  rm -rf /tmp/verif_snap /tmp/repo_snap
+  git -C /verif worktree remove --force /tmp/verif_$SFX 2>/dev/null || true
+  git -C /repo worktree remove --force /tmp/repo_$SFX 2>/dev/null || true
+  rm -rf /tmp/verif_$SFX /tmp/repo_$SFX
   git -C /verif worktree prune; git -C /repo worktree prune
   exit 0
 fi
-git -C /verif worktree add --detach /tmp/verif_snap HEAD >/dev/null
-git -C /repo worktree add --detach /tmp/repo_snap HEAD >/dev/null
-sed -i 's#path = "/repo/#path = "/tmp/repo_snap/#' /tmp/verif_snap/harness/*/Cargo.toml
-cp /verif/tools/seed_eval.py /tmp/verif_snap/tools/seed_eval.py
+git -C /verif worktree add --detach /tmp/verif_$SFX HEAD >/dev/null
+git -C /repo worktree add --detach /tmp/repo_$SFX HEAD >/dev/null
+sed -i "s#path = \"/repo/#path = \"/tmp/repo_$SFX/#" /tmp/verif_$SFX/harness/*/Cargo.toml
+cp /verif/tools/seed_eval.py /verif/tools/mutate.py /tmp/verif_$SFX/tools/
 echo "snapshot pair ready"
